@@ -1,2 +1,53 @@
-(** C02 - placeholder *)
-From VG Require Import Model.Serve.
+(** C02 - Backend sees only valid requests in a protocol, codec and compression it accepts.
+    Statements only; proofs in Proofs/ServeProofs.v (negotiation), Proofs/EnvelopeProofs.v (frames).
+
+    [validate pf t r = VOk o]: operation.validate accepted request [r] against the tables [t];
+    [o] records the client's protocol, codec and compression and the ones chosen for the backend. *)
+From VG Require Import Model.Bytes Model.Headers Model.RespMeta Model.Request Model.Serve Model.Envelope Gen.Generated.
+From VG Require Import Proofs.ServeProofs Proofs.EnvelopeProofs.
+Open Scope Z_scope.
+
+(** The backend's protocol, codec and compression are ones the service was configured with; the
+    client's own choices are kept whenever they are acceptable; otherwise the fallback is the
+    first acceptable protocol in the fixed order, the service's preferred codec, no compression. *)
+Theorem C02_negotiation : forall pf t r o,
+  validate pf t r = VOk o ->
+  let m := op_method o in
+  let cp := cproto_protocol (op_client o) in
+  In (sproto_protocol (op_server o)) (mc_protocols m) /\
+  (In cp (mc_protocols m) -> sproto_protocol (op_server o) = cp) /\
+  (op_server o = SRest -> op_server_codec o = s2b "json") /\
+  (op_server o <> SRest -> In (op_client_codec o) (mc_codecs m) -> op_server_codec o = op_client_codec o) /\
+  (op_server o <> SRest -> ~ In (op_client_codec o) (mc_codecs m) -> op_server_codec o = mc_preferred m) /\
+  (op_server_comp o = [] \/ (op_server_comp o = op_client_comp o /\ In (op_server_comp o) (mc_comps m))) /\
+  (In (op_client_comp o) (mc_comps m) -> op_server_comp o = op_client_comp o) /\
+  In (op_client_codec o) (tc_known_codecs t) /\
+  (op_client_comp o = [] \/ In (op_client_comp o) (tc_known_comps t)) /\
+  ~ bytes_eqb (op_client_comp o) (s2b "identity") = true.
+Proof. exact validate_ok. Qed.
+Print Assumptions C02_negotiation.
+
+Theorem C02_fallback_order : forall client accepted p,
+  negotiate_protocol client accepted = Some p ->
+  In p accepted /\ (In client accepted -> p = client) /\ (~ In client accepted -> In p all_protocols).
+Proof. exact negotiate_spec. Qed.
+Print Assumptions C02_fallback_order.
+
+(** Envelopes written for the backend are well-formed for its protocol: what the backend-side
+    encoder writes is accepted by the reader on the other side and decodes to the same flags and
+    length (all lengths below 2^32; the end-of-stream bit only where the protocol has one) - and
+    re-framing a client envelope for the backend keeps exactly the compressed bit and the length. *)
+Theorem C02_envelope_roundtrip : forall k c t len, 0 <= len < 4294967296 -> (t = true -> writes_trailer k = true) ->
+  decode_env (peer k) (encode_env k (mkEnv t c len)) = Some (mkEnv t c len).
+Proof. exact encode_decode. Qed.
+Print Assumptions C02_envelope_roundtrip.
+
+Theorem C02_reframed_envelope : forall kc ks f b1 b2 b3 b4 e,
+  is_client kc = true -> is_client ks = false ->
+  wf_byte b1 = true -> wf_byte b2 = true -> wf_byte b3 = true -> wf_byte b4 = true ->
+  decode_env kc [f; b1; b2; b3; b4] = Some e ->
+  e_trailer e = false /\
+  encode_env ks e = [if e_compressed e then 1%N else 0%N; b1; b2; b3; b4] /\
+  f = (if e_compressed e then 1%N else 0%N).
+Proof. exact reframe_request. Qed.
+Print Assumptions C02_reframed_envelope.
